@@ -9,7 +9,8 @@ namespace Bebop.Text
 
 abbrev Str := List Byte
 
-def strOf (s : String) : Str := s.toUTF8.toList
+/-- ASCII string literal as bytes (kernel-reducible; only used on ASCII literals). -/
+def strOf (s : String) : Str := s.toList.map (fun c => UInt8.ofNat c.toNat)
 def strEq (a : Str) (s : String) : Bool := a == strOf s
 def showStr (a : Str) : String := String.ofList (a.map (fun c => Char.ofNat c.toNat))
 
